@@ -109,6 +109,21 @@ def run(payload):
             got, want = outs[1]
             if not np.allclose(got, want, rtol=1e-9, atol=1e-11):
                 fails.append({"id": "operator_of_an_earlier_grid_reused", "grids": [repr(ga), repr(gb)], "backend": backend, "max_dev": float(np.max(np.abs(got - want)))})
+    # ---- conditions obtained by name are customised in place; later requests by the same name are unaffected
+    g = UnitGrid([6])
+    f = ScalarField(g, np.arange(6.0) ** 2)
+    for name in ("auto_periodic_neumann", "auto_periodic_dirichlet"):
+        cases += 1
+        try:
+            want = f.laplace(name).data.copy()
+            bcs = g.get_boundary_conditions(name)
+            bcs[0] = {"value": 3.0}
+            bcs2 = g.get_boundary_conditions(name)
+            got = f.laplace(name).data
+            if not np.allclose(got, want) or bcs2 is bcs:
+                fails.append({"id": "customised_conditions_leak_into_later_requests", "name": name, "max_dev": float(np.max(np.abs(got - want)))})
+        except Exception as e:
+            fails.append({"id": "history_error", "where": "customised named conditions", "error": f"{type(e).__name__}: {e}"})
     # ---- one field, requests that differ in a single numeric argument (small integers and their negatives)
     g = UnitGrid([4])
     for a, b in ((-1, -2), (-2, -1), (0, -1), (1, 2), (-1.0, -2.0), (2, -2)):
